@@ -548,7 +548,7 @@ func anchorGuardRule(c *Ctx) {
 				}
 				return name == "PTSEqualsDTS"
 			}
-			found, path, _ := core.PathAvoidingE(a.Fn, nil, func(in ssa.Instruction) bool { return in == ssa.Instruction(st) }, nil, func(x, y *ssa.BasicBlock) bool {
+			passing := func(x, y *ssa.BasicBlock) bool {
 				iff, ok := x.Instrs[len(x.Instrs)-1].(*ssa.If)
 				if !ok || len(x.Succs) != 2 || x.Succs[0] == x.Succs[1] {
 					return false
@@ -566,11 +566,37 @@ func anchorGuardRule(c *Ctx) {
 					passed = x.Succs[1]
 				}
 				return y == passed
-			})
+			}
+			// unguarded: a route from the entry of fn to at exists that takes no passing edge and, when
+			// fn is a helper that is only ever called, so does a route to one of its call sites
+			var unguarded func(fn *ssa.Function, at ssa.Instruction, depth int) (bool, []int, *ssa.Function)
+			unguarded = func(fn *ssa.Function, at ssa.Instruction, depth int) (bool, []int, *ssa.Function) {
+				found, path, _ := core.PathAvoidingE(fn, nil, func(in ssa.Instruction) bool { return in == at }, nil, passing)
+				if !found {
+					return false, nil, nil
+				}
+				refs := p.RefsTo(fn)
+				if depth >= 2 || fn.Parent() != nil || token.IsExported(fn.Name()) || len(refs) == 0 {
+					return true, path, fn
+				}
+				for _, ref := range refs {
+					if !ref.IsCall || ref.Caller == fn {
+						return true, path, fn
+					}
+					if bad, p2, f2 := unguarded(ref.Caller, ref.Instr, depth+1); bad {
+						return true, p2, f2
+					}
+				}
+				return false, nil, nil
+			}
+			found, path, inFn := unguarded(a.Fn, st, 0)
+			if inFn == nil {
+				inFn = a.Fn
+			}
 			// found = a route exists that never takes a passing edge; but routes that take the failing edge and still reach the store are the bad ones.
 			construct := fmt.Sprintf("%s stores %s #%d", fnShort(a.Fn), fname, n)
 			if found {
-				r.FailPath("C15/ANCHOR-GUARD", construct, p.Pos(st.Pos()), "the anchor is moved on a route where the packet was not checked with PTSEqualsDTS", core.BlockPath(p, a.Fn, path))
+				r.FailPath("C15/ANCHOR-GUARD", construct, p.Pos(st.Pos()), "the anchor is moved on a route where the packet was not checked with PTSEqualsDTS", core.BlockPath(p, inFn, path))
 			} else {
 				r.OK("C15/ANCHOR-GUARD", construct, p.Pos(st.Pos()), "reached only through the true edge of PTSEqualsDTS")
 			}
@@ -600,6 +626,15 @@ func anchorTupleRule(c *Ctx) {
 	r.Rule("C15/ANCHOR-TUPLE", "the fields that together record one (RTP timestamp, clock) correspondence are always written together: every basic block that stores one member of a tuple stores all of them (a member updated alone pairs the timestamp of one packet with the time of another)", 6)
 	for _, t := range anchorTuples {
 		fs, unres := p.FieldSet(t.pkg, t.typ, t.fields)
+		if len(unres) > 0 {
+			// the members may have been folded into one struct-typed field: the tuple is then that
+			// struct, and its members are written together when the struct is stored whole or every
+			// block that stores one of its (non-flag) members stores all of them
+			if folded, ok := foldedTuple(c, t.pkg, t.typ, len(t.fields)); ok {
+				anchorTupleFolded(c, t.typ, t.fields, folded, t.why)
+				continue
+			}
+		}
 		if !r.Anchor("C15/ANCHOR-TUPLE", t.typ+".{"+strings.Join(t.fields, ",")+"}", len(unres) == 0 && len(fs) == len(t.fields)) {
 			continue
 		}
@@ -650,5 +685,99 @@ func anchorTupleRule(c *Ctx) {
 		if len(keys) == 0 {
 			r.Fail("C15/ANCHOR-TUPLE", t.typ+" tuple stores", "", "none found")
 		}
+	}
+}
+
+// foldedTuple: the only new field of pkg.typ whose type is a struct of the same package with at
+// least n fields.
+func foldedTuple(c *Ctx, pkg, typ string, n int) (*types.Var, bool) {
+	var cands []*types.Var
+	for _, f := range c.P.FreshFields(pkg, typ) {
+		st, ok := core.Deref(f.Type()).Underlying().(*types.Struct)
+		if !ok || st.NumFields() < n {
+			continue
+		}
+		if nm, isNamed := core.Deref(f.Type()).(*types.Named); !isNamed || nm.Obj().Pkg() == nil || core.Rel(nm.Obj().Pkg().Path()) != pkg {
+			continue
+		}
+		cands = append(cands, f)
+	}
+	if len(cands) != 1 {
+		return nil, false
+	}
+	return cands[0], true
+}
+
+func anchorTupleFolded(c *Ctx, typ string, old []string, f *types.Var, why string) {
+	p, r := c.P, c.R
+	st := core.Deref(f.Type()).Underlying().(*types.Struct)
+	var members []int
+	for i := 0; i < st.NumFields(); i++ {
+		if b, ok := st.Field(i).Type().Underlying().(*types.Basic); ok && b.Kind() == types.Bool {
+			continue // a validity flag is not part of the correspondence
+		}
+		members = append(members, i)
+	}
+	type bk struct {
+		fn *ssa.Function
+		b  *ssa.BasicBlock
+	}
+	stores := map[bk]map[int]bool{}
+	first := map[bk]string{}
+	mark := func(fn *ssa.Function, at ssa.Instruction, idx int) {
+		k := bk{fn, at.Block()}
+		if stores[k] == nil {
+			stores[k] = map[int]bool{}
+			first[k] = p.Pos(at.Pos())
+		}
+		if idx < 0 {
+			for _, m := range members {
+				stores[k][m] = true
+			}
+			return
+		}
+		stores[k][idx] = true
+	}
+	for _, fn := range p.SrcFuncs() {
+		for _, b := range fn.Blocks {
+			for _, in := range b.Instrs {
+				s, ok := in.(*ssa.Store)
+				if !ok {
+					continue
+				}
+				fa, ok := s.Addr.(*ssa.FieldAddr)
+				if !ok {
+					continue
+				}
+				if core.FieldOfAddr(fa) == f {
+					mark(fn, s, -1) // the struct stored whole
+					continue
+				}
+				if outer, ok := fa.X.(*ssa.FieldAddr); ok && core.FieldOfAddr(outer) == f {
+					mark(fn, s, fa.Field)
+				}
+			}
+		}
+	}
+	var keys []bk
+	for k := range stores {
+		keys = append(keys, k)
+	}
+	sort.Slice(keys, func(i, j int) bool { return first[keys[i]] < first[keys[j]] })
+	nth := map[string]int{}
+	for _, k := range keys {
+		var missing []string
+		for _, m := range members {
+			if !stores[k][m] {
+				missing = append(missing, st.Field(m).Name())
+			}
+		}
+		nth[fnShort(k.fn)]++
+		construct := fmt.Sprintf("%s writes {%s} #%d", fnShort(k.fn), strings.Join(old, ","), nth[fnShort(k.fn)])
+		r.Check(len(missing) == 0, "C15/ANCHOR-TUPLE", construct, first[k], "the tuple, now the struct-typed field "+f.Name()+", is stored whole or member by member in one block ("+why+")",
+			"this block updates part of "+f.Name()+" but not "+strings.Join(missing, ", ")+": "+why)
+	}
+	if len(keys) == 0 {
+		r.Fail("C15/ANCHOR-TUPLE", typ+" tuple stores", "", "none found (the tuple was folded into "+f.Name()+")")
 	}
 }
